@@ -24,6 +24,8 @@ func init() {
 			"every resolver entry point runs authorizePreFetch before the loader, subscriptions are authorized before they are registered, and the batch gate fails closed on a decision-count mismatch; the collector descends into the same composite kinds as the renderer and the protected bit has one source. " +
 			"It does not decide 'no denied byte in any response' (value level).",
 		Mutants: []Mutant{
+			{Name: "root field authorization rule looked up under the alias (seeded change C14-12)", File: "v2/pkg/engine/plan/path_builder_visitor.go", Rule: "C14-R4", Key: "addRootField/lookup-by-field-name",
+				Old: "\tfieldName := c.operation.FieldNameString(fieldRef)\n\tfieldHasAuthorizationRule := c.fieldHasAuthorizationRule(enclosingTypeName, fieldName)", New: "\tfieldName := c.operation.FieldAliasOrNameString(fieldRef)\n\tfieldHasAuthorizationRule := c.fieldHasAuthorizationRule(enclosingTypeName, fieldName)"},
 			{Name: "batch entity fetch loads even when the gate said no", File: loaderGo, Rule: "C14-R1", Key: "prepareBatchEntityFetch",
 				Old: "\tif !allowed {\n\t\tprepared.skipLoad = true\n\t\treturn nil\n\t}\n\n\tprepared.source = fetch.DataSource", New: "\t_ = allowed\n\n\tprepared.source = fetch.DataSource"},
 			{Name: "loadPhase ignores skipLoad", File: loaderGo, Rule: "C14-R1", Key: "loadPhase",
@@ -820,4 +822,46 @@ func protectedBitProvenance(r *fw.Run) {
 		})
 	}
 	r.Expect("C14-R4", "HasAuthorizationRule writes in plan", n, 2)
+
+	// the lookup is made for the schema coordinate of the field: its name, never its alias (added after a seeded change
+	// looked the rule up under FieldAliasOrNameString — an aliased protected mutation was then sent to the subgraph)
+	m := 0
+	for _, fi := range p.Funcs("plan") {
+		info := fi.Info()
+		var d *fw.Deriver
+		fw.WalkAll(fi.Decl.Body, func(nd ast.Node) bool {
+			c, ok := nd.(*ast.CallExpr)
+			if !ok || len(c.Args) != 2 {
+				return true
+			}
+			fn := fw.Callee(info, c)
+			if fn == nil || fn.Pkg() == nil || fn.Pkg() != fi.Obj.Pkg() || !strings.Contains(strings.ToLower(fn.Name()), "hasauthorizationrule") {
+				return true
+			}
+			m++
+			if d == nil {
+				d = fw.NewPureDeriver(fi)
+			}
+			viaAlias := d.Derives(c.Args[1], func(e ast.Expr) bool {
+				ce, ok := e.(*ast.CallExpr)
+				if !ok {
+					return false
+				}
+				f := fw.Callee(info, ce)
+				return f != nil && strings.Contains(f.Name(), "Alias")
+			})
+			viaName := d.Derives(c.Args[1], func(e ast.Expr) bool {
+				ce, ok := e.(*ast.CallExpr)
+				if !ok {
+					return false
+				}
+				f := fw.Callee(info, ce)
+				return f != nil && strings.HasPrefix(f.Name(), "FieldName")
+			})
+			r.Check(viaName && !viaAlias, "C14-R4", fi.Name()+"/lookup-by-field-name", p.Pos(c.Pos()), "the authorization rule is looked up under the name of the field (ast.Document.FieldName…), not under its alias",
+				"the rule is looked up under a string that comes from an alias accessor (or not from the field name at all): an aliased selection of a protected field is planned as unprotected — the pre-fetch gate lets a denied mutation like `mutation { w: wipe }` reach the subgraph")
+			return true
+		})
+	}
+	r.Expect("C14-R4", "authorization rule lookups in plan", m, 2)
 }
